@@ -69,6 +69,10 @@ func (c *verifC09_cas) Put(ctx context.Context, d digest.Digest, b buffer.Buffer
 	if rt.NondetBool("CAS Put fails") {
 		c.failed()
 		b.Discard()
+		if rt.NondetBool("the write was cancelled (else failed)") {
+			rt.Cover("cas:put-cancelled")
+			return status.Error(codes.Canceled, "write cancelled")
+		}
 		return status.Error(codes.Internal, "write failed")
 	}
 	if _, err := b.ToByteSlice(100); err != nil {
